@@ -26,13 +26,16 @@ prop("C01", NEC + "Clauses: positions handed to TokenChange queries are absolute
      "text is edited, tokens updated against the new text and stored before the AST update (UPDATE-ORDER); the change window "
      "is computed from head/new/tail lengths (RELEX-WINDOW); the re-analysis, which appends diagnostics, is only reached "
      "after parser::update stripped the previous ones: no path skips it in the per-change step and an empty change list "
-     "is turned away (STRIP-REBUILD).",
+     "is turned away (STRIP-REBUILD); the TextChanges handed to update are computed against the text they will be applied to "
+     "(TEXT-SYNC batch clauses); batch and incremental lexer skip the same separators; an old node is reused only where it starts "
+     "in the new token stream, a parser that gives up as Affected hands back the input it was entered with, and the stack of old "
+     "Reference offsets is popped exactly when it was pushed (REUSE).",
      [{"rule": "TOKCHANGE-ARGS", "floor": 4}, {"rule": "REBUILD", "floor": 14}, {"rule": "STRIP-SET", "floor": 4},
       {"rule": "SAVE-RESTORE", "floor": 4}, {"rule": "EQ-COMPLETE", "floor": 43},
       {"rule": "TRAVERSE", "filter": tag("traverse"), "floor": 106},
       {"rule": "TOKEN-ERRORS", "floor": 2}, {"rule": "TABLES", "filter": tag("T2"), "floor": 17},
-      {"rule": "UPDATE-ORDER", "floor": 3}, {"rule": "RELEX-WINDOW", "floor": 6}, {"rule": "STRIP-REBUILD", "floor": 2},
-      {"rule": "COMMENT-LEX", "floor": 5}])
+      {"rule": "UPDATE-ORDER", "floor": 3}, {"rule": "RELEX-WINDOW", "floor": 8}, {"rule": "STRIP-REBUILD", "floor": 2},
+      {"rule": "COMMENT-LEX", "floor": 5}, {"rule": "TEXT-SYNC", "filter": tag("batch"), "floor": 4}, {"rule": "REUSE", "floor": 5}])
 
 prop("C02", NEC + "Clauses: token-range to text-range conversions unwrap first()/last() only in the arm complementary "
      "to `range.is_empty()`; token byte ranges are taken from the consumed input, so they lie on character boundaries "
@@ -44,26 +47,28 @@ prop("C02", NEC + "Clauses: token-range to text-range conversions unwrap first()
      [{"rule": "EMPTY-RANGE-GUARD", "floor": 2}, {"rule": "LOOKUP-NOPANIC", "floor": 14},
       {"rule": "ENTRY-GUARD", "floor": 6}, {"rule": "WHO-MAY", "filter": tag("exit"), "floor": 5},
       {"rule": "TOKEN-RANGE-SOURCE", "floor": 11}, {"rule": "INDEX-ELEM", "floor": 30},
-      {"rule": "BUILTIN-SET", "floor": 2}, {"rule": "TEXT-SYNC", "filter": tag("batch"), "floor": 4}])
+      {"rule": "BUILTIN-SET", "floor": 3}, {"rule": "TEXT-SYNC", "filter": tag("batch"), "floor": 4}])
 
 prop("C03", NEC + "Clauses: each of the 27 build/semantic message kinds has an emitting site under table::* and its own "
      "text (VARIANTS); every error is attached in the reference frame of the node that owns it and is shifted exactly "
      "once per Reference crossed on the way up (FRAME S6/S3/S4/S-shift in error_container.rs, build.rs, semantic.rs, "
      "lib.rs); every ErrorContainer impl descends into every child that can hold an AstInfo (TRAVERSE); type equality "
      "used by the checker compares every field incl. the array creator (EQ-COMPLETE: SPL name equivalence); type expressions of type "
-     "declarations and parameters are resolved in the global scope, those of local variables in the procedure scope (SCOPE-ORDER typescope).",
+     "declarations and parameters are resolved in the global scope, those of local variables in the procedure scope (SCOPE-ORDER typescope); "
+     "names used in a procedure body are resolved through the scoped LookupTable, never directly against the global table.",
      [{"rule": "VARIANTS", "floor": 54}, {"rule": "MESSAGE-SITE", "floor": 32},
       {"rule": "FRAME", "filter": files(*FRONT_FRAME), "floor": 212},
       {"rule": "TRAVERSE", "filter": tag("errors", "analyze", "build"), "floor": 73}, {"rule": "EQ-COMPLETE", "floor": 43},
-      {"rule": "SCOPE-ORDER", "filter": tag("typescope"), "floor": 3}])
+      {"rule": "SCOPE-ORDER", "filter": tag("typescope", "semantic"), "floor": 5}])
 
 prop("C04", NEC + "Clauses: shape of the precedence-climbing parser (levels, loops, operand parsers, else binding) "
      "and agreement of parser levels with the operator classification used by the type checker (T5); raw token "
      "consumption only inside the comment-skipping token parsers; doc comments are consumed inside the node's info(..) range "
-     "(DOC-IN-RANGE); a rebuilt Reference carries the sum of the offsets it unwraps (FRAME S-ref in parser.rs / parser/utility.rs).",
+     "(DOC-IN-RANGE); a rebuilt Reference carries the sum of the offsets it unwraps (FRAME S-ref in parser.rs / parser/utility.rs); "
+     "a range used as the prefix another node is extended with does not itself cover a repetition (INFO-EXTENT: nested array accesses).",
      [{"rule": "PARSE-SHAPE", "floor": 18}, {"rule": "TABLES", "filter": tag("T5"), "floor": 23},
       {"rule": "NOCONSUME", "filter": tag("take"), "floor": 4}, {"rule": "DOC-IN-RANGE", "floor": 5},
-      {"rule": "FRAME", "filter": files("parser.rs", "utility.rs"), "floor": 3}])
+      {"rule": "FRAME", "filter": files("parser.rs", "utility.rs"), "floor": 3}, {"rule": "INFO-EXTENT", "floor": 1}])
 
 prop("C05", NEC + "Clauses: the five synchronisation sets are nested and all contain proc/type/eof, each error "
      "variant recovers with its own set (SYNC-SETS); failed token parsers and expect() hand back the original "
@@ -74,9 +79,11 @@ prop("C06", NEC + "Clauses: alt(..) order vs. prefix relation of static lexemes 
      "lexed exactly once through the macro of its class, class order, exactly one Eof; token ranges are the ranges of the "
      "consumed input (TOKEN-RANGE-SOURCE); the keyword boundary test uses the identifier continuation class (KEYWORD-BOUNDARY); "
      "the comment lexer's text class stops exactly at a line feed and cannot fail, its closer accepts the line feed and the end of "
-     "the text (COMMENT-LEX).",
+     "the text (COMMENT-LEX); the Span the tokens take their ranges from is built over the text as handed in, and batch and "
+     "incremental lexer skip the same separator class (RELEX-WINDOW lexinput).",
      [{"rule": "TABLES", "filter": tag("T1", "T3"), "floor": 37}, {"rule": "EOF-ONCE", "floor": 3},
-      {"rule": "TOKEN-RANGE-SOURCE", "floor": 11}, {"rule": "KEYWORD-BOUNDARY", "floor": 2}, {"rule": "COMMENT-LEX", "floor": 5}])
+      {"rule": "TOKEN-RANGE-SOURCE", "floor": 11}, {"rule": "KEYWORD-BOUNDARY", "floor": 2}, {"rule": "COMMENT-LEX", "floor": 5},
+      {"rule": "RELEX-WINDOW", "filter": tag("lexinput"), "floor": 2}])
 
 prop("C07", NEC + "Clauses: a token relocated to a new range relocates its lexical errors too (TOKEN-ERRORS); the "
      "look-ahead table covers every lexeme that a following character can extend (T2); byte, char and UTF-16 lengths "
@@ -84,7 +91,7 @@ prop("C07", NEC + "Clauses: a token relocated to a new range relocates its lexic
      "change window is computed from head/new/tail lengths, result = head ++ new ++ tail ++ eof (RELEX-WINDOW); a comment that "
      "can end with the text is re-lexed when text is appended behind it (COMMENT-LEX).",
      [{"rule": "TOKEN-ERRORS", "floor": 2}, {"rule": "TABLES", "filter": tag("T2"), "floor": 17},
-      {"rule": "LEN-UNITS", "filter": tag("arith"), "floor": 1}, {"rule": "RELEX-WINDOW", "floor": 6}, {"rule": "COMMENT-LEX", "floor": 5}])
+      {"rule": "LEN-UNITS", "filter": tag("arith"), "floor": 1}, {"rule": "RELEX-WINDOW", "floor": 8}, {"rule": "COMMENT-LEX", "floor": 5}])
 
 prop("C08", NEC + "Clauses: no content change is discarded, batched changes are converted against the advanced "
      "temporary text and applied to it, LSP columns advance by UTF-16 code units; lengths of different units are not mixed; "
@@ -96,14 +103,17 @@ prop("C08", NEC + "Clauses: no content change is discarded, batched changes are 
 prop("C09", NEC + "Clauses: operators are re-printed as the lexeme they were lexed from (T4); every Format impl prints "
      "every child that holds an identifier, literal or operator and every Error variant (TRAVERSE); every token slice "
      "handed down is re-based exactly when a Reference is crossed (FRAME in formatting.rs); the edit covers the whole "
-     "document (FMT-PURE); character literals are printed only with escapes the lexer knows (CHAR-ESCAPES).",
+     "document (FMT-PURE); character literals are printed only with escapes the lexer knows (CHAR-ESCAPES); the first token of a "
+     "node's slice is never taken for the node's own token, the slice may start with comments (SLICE-FIRST).",
      [{"rule": "TABLES", "filter": tag("T4"), "floor": 20}, {"rule": "TRAVERSE", "filter": tag("format"), "floor": 43},
       {"rule": "FRAME", "filter": files("formatting.rs"), "floor": 63}, {"rule": "FMT-PURE", "floor": 5},
-      {"rule": "CHAR-ESCAPES", "floor": 2}])
+      {"rule": "CHAR-ESCAPES", "floor": 2}, {"rule": "SLICE-FIRST", "floor": 20}])
 
 prop("C10", NEC + "Clause: a composite node whose parser skips comments in front of several own tokens must re-attach all "
-     "comments of its slice (COMMENT-PAIRING). Six composite Format impls violate it on the pinned tree (known findings).",
-     [{"rule": "COMMENT-PAIRING", "floor": 21}, {"rule": "DOC-IN-RANGE", "floor": 5}])
+     "comments of its slice (COMMENT-PAIRING). Six composite Format impls violate it on the pinned tree (known findings). A comment must first of all be a comment token: "
+     "COMMENT-LEX; handlers do not mistake the comment in front of a node for the node's first token (SLICE-FIRST).",
+     [{"rule": "COMMENT-PAIRING", "floor": 21}, {"rule": "DOC-IN-RANGE", "floor": 5}, {"rule": "SLICE-FIRST", "floor": 20},
+      {"rule": "COMMENT-LEX", "floor": 5}])
 
 prop("C11", NEC + "Clauses: the printer does not read byte positions (output is a function of tree and token kinds), the "
      "indentation unit follows insertSpaces/tabSize, null is returned exactly on equality; character literals are printed only with "
@@ -117,7 +127,8 @@ prop("C12", NEC + "Clauses: an entry's name range is resolved against the token 
      "by as_pos_range only (POS-CONV)." + PARSER_REF,
      [{"rule": "FRAME", "filter": files("goto.rs", "features.rs", "table.rs"), "floor": 16},
       {"rule": "SCOPE-ORDER", "floor": 18}, {"rule": "ENTRY-GUARD", "floor": 6}, {"rule": "ENTRY-KIND", "floor": 4},
-      {"rule": "LOOKUP-NOPANIC", "floor": 14}, {"rule": "BUILTIN-SET", "floor": 2}, {"rule": "POS-CONV", "floor": 22},
+      {"rule": "LOOKUP-NOPANIC", "floor": 14}, {"rule": "BUILTIN-SET", "floor": 3}, {"rule": "POS-CONV", "floor": 23},
+      {"rule": "CURSOR-CMP", "floor": 1},
       {"rule": "FRAME", "filter": files("parser.rs", "utility.rs"), "floor": 3}])
 
 prop("C13", NEC + "Clauses: the finder walkers descend into every statement/expression/type shape that can contain what "
@@ -126,7 +137,8 @@ prop("C13", NEC + "Clauses: the finder walkers descend into every statement/expr
      "(SCOPE-ORDER); every range sent out is converted by as_pos_range (UTF-16 columns) only (POS-CONV)." + PARSER_REF,
      [{"rule": "TRAVERSE", "filter": tag("vars", "calls", "types"), "floor": 51},
       {"rule": "FRAME", "filter": files("references.rs"), "floor": 56}, {"rule": "SAME-FINDER", "floor": 3},
-      {"rule": "SCOPE-ORDER", "floor": 18}, {"rule": "IDENT-RANGE", "floor": 4}, {"rule": "POS-CONV", "floor": 22},
+      {"rule": "SCOPE-ORDER", "floor": 18}, {"rule": "IDENT-RANGE", "floor": 4}, {"rule": "POS-CONV", "floor": 23},
+      {"rule": "CURSOR-CMP", "floor": 1}, {"rule": "BSEARCH-MONO", "floor": 1},
       {"rule": "FRAME", "filter": files("parser.rs", "utility.rs"), "floor": 3}])
 
 prop("C14", NEC + "Clauses: the call statement is located with node, origin and token slice in one frame on every step of "
@@ -134,11 +146,12 @@ prop("C14", NEC + "Clauses: the call statement is located with node, origin and 
      "resolves local-then-global (SCOPE-ORDER); signatures read kind, name, ref marker and type (DISPLAY-FIELDS); the hover range "
      "is the cursor identifier's token range (IDENT-RANGE), converted by as_pos_range (POS-CONV); a token counts as lying before the "
      "cursor iff it starts before it: comparisons of token bounds with the cursor offset use one of the four forms that say so "
-     "(CURSOR-CMP: the commas counted for the active parameter)." + PARSER_REF,
+     "(CURSOR-CMP: the commas counted for the active parameter); an entry's documentation is the concatenation of all doc-comment "
+     "lines of its declaration (DOC-FLOW)." + PARSER_REF,
      [{"rule": "FRAME", "filter": files("signature_help.rs"), "floor": 8},
       {"rule": "TRAVERSE", "filter": tag("calls"), "floor": 18}, {"rule": "SCOPE-ORDER", "floor": 18},
       {"rule": "DISPLAY-FIELDS", "floor": 4}, {"rule": "IDENT-RANGE", "floor": 4}, {"rule": "POS-CONV", "floor": 22},
-      {"rule": "CURSOR-CMP", "floor": 1},
+      {"rule": "CURSOR-CMP", "floor": 1}, {"rule": "DOC-FLOW", "floor": 1},
       {"rule": "FRAME", "filter": files("parser.rs", "utility.rs"), "floor": 3}])
 
 prop("C15", NEC + "Clauses: legend order = enum discriminants (T6); token positions of different units/frames are not "
@@ -154,7 +167,7 @@ prop("C16", NEC + "Clauses: every token slice / node pair that drives the positi
      "search_* keep exactly the entry kinds they are named after, from the right table (KIND-FILTER); proposal lists are concatenated, "
      "never merged by label or pruned (NO-MERGE: a variable and a procedure may share a name)." + PARSER_REF,
      [{"rule": "FRAME", "filter": files("completion.rs"), "floor": 18}, {"rule": "SCOPE-ORDER", "floor": 18},
-      {"rule": "KIND-FILTER", "floor": 7}, {"rule": "NO-MERGE", "floor": 24},
+      {"rule": "KIND-FILTER", "floor": 7}, {"rule": "NO-MERGE", "floor": 24}, {"rule": "CURSOR-CMP", "floor": 1},
       {"rule": "FRAME", "filter": files("parser.rs", "utility.rs"), "floor": 3}])
 
 prop("C17", NEC + "Clause: the procedure's token range is made absolute with the offset of the Reference it was reached "
@@ -163,7 +176,7 @@ prop("C17", NEC + "Clause: the procedure's token range is made absolute with the
      "afterwards (ONE-PER-ITEM); the document the ranges are computed from is the client's: batched changes are converted and "
      "applied in the order sent (TEXT-SYNC batch, UPDATE-ORDER)." + PARSER_REF,
      [{"rule": "FRAME", "filter": files("fold.rs"), "floor": 2}, {"rule": "POS-CONV", "floor": 22},
-      {"rule": "ONE-PER-ITEM", "floor": 3}, {"rule": "TEXT-SYNC", "filter": tag("batch"), "floor": 4},
+      {"rule": "ONE-PER-ITEM", "floor": 3}, {"rule": "SLICE-FIRST", "floor": 20}, {"rule": "BSEARCH-MONO", "floor": 1}, {"rule": "TEXT-SYNC", "filter": tag("batch"), "floor": 4},
       {"rule": "UPDATE-ORDER", "floor": 3}, {"rule": "FRAME", "filter": files("parser.rs", "utility.rs"), "floor": 3}])
 
 prop("C18", NEC + "Clauses: every path through every Request arm of the three phase loops splits the request, "
@@ -175,8 +188,10 @@ prop("C18", NEC + "Clauses: every path through every Request arm of the three ph
 
 prop("C19", NEC + "Clauses: decode consumes nothing before its last `Ok(None)`, slices the body only behind the "
      "length guard and advances by exactly content_end; encode writes String::len() (bytes) of the body it writes; one "
-     "FramedRead (and thus one read buffer) serves the whole session.",
-     [{"rule": "CODEC", "floor": 7}, {"rule": "WHO-MAY", "filter": tag("framed"), "floor": 1}])
+     "FramedRead (and thus one read buffer) serves the whole session; what is published for a change does not depend on what else is "
+     "queued behind it (BROKER diag: publishing is guarded by the capability flag alone).",
+     [{"rule": "CODEC", "floor": 7}, {"rule": "WHO-MAY", "filter": tag("framed"), "floor": 1},
+      {"rule": "BROKER", "filter": tag("diag"), "floor": 8}])
 
 prop("C20", NEC + "Clauses: diagnostics only under `if send_diagnostics`, once per Open/Change; Close removes; "
      "document map keyed by an injective function of the URI; no task spawned per request; every channel send is "
